@@ -786,7 +786,7 @@ impl Parser {
     //@  loop 1 invariant forall|k: int| enclosing < k < n - 1 ==> !resolvable(#[trigger] cs0[k], nm)
     //@  loop 1 invariant it.index@ == 0 ==> index == i0
     //@  loop 1 invariant it.index@ > 0 ==> chain(self.compilers@, current + it.index@ - 1, index as int, enclosing as int, i0 as int)
-    //@  after_stmt "self.compilers[enclosing].locals[index as usize].is_captured = true" let ghost i0 = index;
+    //@  before_stmt "let mut index = index" let ghost i0 = index;
     //@  at loop1.start let ghost before = self.compilers@; let ghost cidx = current + it.index@; let ghost idx_in = index;
     //@  at loop1.end proof { let after = self.compilers@; assert(cidx == compiler); if it.index@ > 0 { lemma_chain_frame(before, after, cidx - 1, idx_in as int, enclosing as int, i0 as int); } }
     //@  before_stmt "return Some(index)" proof { assert(capture_ok(cs0, self.compilers@, enclosing as int, i0 as int, index as int, nm)); assert(cs0 == old(self).compilers@ && nm == name.source@); assert(captured_somewhere(old(self).compilers@, self.compilers@, index as int, name.source@)); }
